@@ -728,7 +728,7 @@ func mentionsGlobal(info *types.Info, e ast.Expr, name string) bool {
 //      judged by this time), and the id is taken from the raft index after the commit.
 func (c *Ctx) c05API() {
 	r := c.R
-	names := []string{"api.(*HTTP).applyMessageWait", "api.(*HTTP).handlePostMessage", "api.(*HTTP).handleCreateSession", "api.(*HTTP).handleDeleteSession", "api.(*HTTP).handlePostConfig", "api.(*HTTP).applyConfig", "api.(*HTTP).handleKill", "api.(*HTTP).maybeProxyToLeader", "api.parseLastSeen"}
+	names := []string{"api.(*HTTP).applyMessageWait", "api.(*HTTP).handlePostMessage", "api.(*HTTP).handleCreateSession", "api.(*HTTP).handleDeleteSession", "api.(*HTTP).handlePostConfig", "api.(*HTTP).applyConfig", "api.(*HTTP).handleKill", "api.(*HTTP).maybeProxyToLeader", "api.parseLastSeen", "api.(*HTTP).handleGetMessages", "api.(*HTTP).getMessages", "api.(*HTTP).session", "api.(*HTTP).sessionOrProxy"}
 	nErr := 0
 	for _, n := range names {
 		if fi := c.P.Func(n); fi != nil && fi.Body() != nil {
